@@ -9,6 +9,7 @@
      X [0|1]                   a step (0: it returned an error) with the observation registered by the preceding O lines
      W                         table_wf and state_wf
      K name                    entry_class / is_pseudo / the witness command line of a table entry
+     N scripted after|e..|b..  one step of the energy bookkeeping (EnergyModel.v)
      G id:x:y:z id:x:y:z|...   groups ('|' between groups) of (atom id, contribution as three hex floats) in listing order:
                                prints "ids i1 i2 .. | x y z x y z .." = build_ids and collect_groups (float addition, listing order) *)
 open Model
@@ -178,6 +179,18 @@ let () =
               let w = witness_words k sub (cs "\x01NAME") e in
               Printf.printf "class %s %s pseudo=%b witness=%s\n" kind (ocaml_string_of sub) (is_pseudo e)
                 (Stdlib.String.concat "\x1f" (List.map ocaml_string_of w))))
+      | 'N' ->
+        (* N scripted after | e1 e2 .. (cv addenergy values of the force script) | b1 b2 .. (energies of the force-applying biases): what the
+           engine is given and what the module holds after the step (float addition in the order of the code) *)
+        (match Stdlib.String.split_on_char '|' rest with
+         | [hd; sc; bs] ->
+           (match toks hd with
+            | [scr; aft] ->
+              let st' = energy_step (fun a b -> a +. b) 0.0 (scr = "1") (aft = "1") (List.map fl (toks sc)) (List.map fl (toks bs))
+                  { es_total = nan; es_sent = None } in
+              Printf.printf "energy sent=%s total=%h\n" (match st'.es_sent with Some x -> Printf.sprintf "%h" x | None -> "none") st'.es_total
+            | _ -> print_endline "?")
+         | _ -> print_endline "?")
       | 'G' ->
         let parse_entry e = match Stdlib.String.split_on_char ':' e with
           | [i; x; y; z] -> (z_of_int (int_of_string i), (float_of_string x, float_of_string y, float_of_string z))
